@@ -20,8 +20,9 @@ CHECKS['C15'] = {
     'level': 'proof',
     'technique': 'deductive verification: VCs over z3 sequences (exact python slice / floor-division semantics) from the real source; bounded run-time contract as cross-check',
     'text': ('find_best_overlap and merge_transcriptions_and_logits are proved against their contracts for every list of parts: overlap in '
-             '[0, min], per-step relation acc[:|acc|-ceil(o/2)] ++ t[floor(o/2):], length = sum of parts - sum of overlaps, one logits row per '
-             'character; o = 0 is plain concatenation (54 obligations).'),
+             '[0, min] and equal to the FIRST length whose computed error rate is minimal provided that minimum is below 1, else 0 (ghost record of the '
+             'error rates); per-step relation acc[:|acc|-ceil(o/2)] ++ t[floor(o/2):], length = sum of parts - sum of overlaps, one logits row per '
+             'character; o = 0 is plain concatenation (61 obligations).'),
     'note': ('Trusted: pyvc generator; strings as z3 Seq of opaque symbols, logits as z3 Seq of opaque rows (np.concatenate axis 0 = Concat, row '
              'slicing = SubSeq); callee contract of levenshtein_distance (result >= 0) proved under C13. Window splitting in process_lines is not under contract.'),
 }
@@ -86,7 +87,8 @@ CHECKS['C05'] = {
              '(one min-plus step: lower bound over all allowed transitions + attained by the recorded predecessor), backtrack (follows the back-pointers). '
              'BOUNDED: force_align collapses to the labels with the brute-force minimum cost, fails iff no finite alignment / blank among labels; align_text '
              'positions increasing and most confident in block — on a finite grid of cost matrices (incl. +inf, ties, repeats, both blank positions). '
-             'force_align / align_text themselves (composition, collapse of a valid state path to the labels) are bounded only.'),
+             'force_align (composition): one symbol per frame = symbol of the state of a minimum-cost allowed state path of the CTC topology of the labels; the sequence '
+             'collapses to the labels (inductive lemma: number of collapse events = number of labels entered).  align_text (most confident frame per block) is bounded only.'),
     'note': 'Trusted: pyvc; A4 numba.jit = Python semantics; np.where(A != inf) modelled as two index arrays; brute-force oracle specs/viterbi.py.',
 }
 
@@ -126,7 +128,8 @@ CHECKS['C08'] = {
     'text': ('PROVED: every mutable attribute the line loop reads is reset before the loop (value at the loop head independent of the entry state), and one '
              'loop iteration computes transcription and carried LM state from the line and the carried state only (counters and clock do not flow into outputs or '
              'branch conditions) - hence by induction a page result is a function of the page and the immutable configuration. BOUNDED: all page histories of '
-             'length <= 3 x carry on/off x 5 thresholds equal the solo result. The multi-process schedule clause is NOT decided (no thread/process reasoning in this family).'),
+             'length <= 3 x carry on/off x 5 thresholds equal the solo result; engine histories on one OCR engine; the real LMWrapper around a training-mode LSTM LM with '
+             'dropout decodes one matrix three times identically. The multi-process schedule clause is NOT decided (no thread/process reasoning in this family).'),
     'note': ('Trusted: pyvc; decoder / LM / logits preparation are opaque pure functions (A6; frame scan shows LMWrapper assigns no attribute); module-level RNG '
              'tie-breaks in layout stages are listed in the evidence, not proved absent; Pool.starmap scheduling outside the technique.'),
 }
